@@ -30,10 +30,10 @@ ASSUMPTIONS = [
     'a regimen call before any route was chosen is rejected by chi (documented ValueError) and leaves the state unchanged',
     'operations that ReducedMechanisticModel does not offer (set_administration) are skipped after wrapping']
 REQUIRED = ['admin_after_config', 'copy_then_mutate', 'wrapped', 'regimen_then_admin', 'rename_then_admin', 'exhaustive',
-            'protocol_object_reused']
+            'protocol_object_reused', 'model:more_than_16_parameters:some_fixed']
 
 TIMES = np.array([0.0, 0.4, 0.7, 1.3, 2.6, 3.9])
-ALPHABET = ['A0', 'A1', 'A2', 'R0', 'R1', 'R2', 'RP', 'O0', 'O1', 'O2', 'NP', 'NO', 'S1', 'S0', 'C', 'K', 'F', 'X', 'G', 'E']
+ALPHABET = ['A0', 'A1', 'A2', 'A3', 'R0', 'R1', 'R2', 'RP', 'O0', 'O1', 'O2', 'NP', 'NO', 'S1', 'S0', 'C', 'K', 'F', 'X', 'G', 'E']
 REGIMENS = {'R0': dict(dose=2.0, start=0.5, duration=0.2, period=1.0, num=3),
             'R1': dict(dose=1.0, start=0.0, duration=0.01, period=None, num=None),
             # (a control arm: the same call with a dose of zero replaces whatever was scheduled before)
@@ -52,7 +52,16 @@ MS2 = dict(comps=[dict(id='zeta', size=1.3, sid='mu', init=0.8), dict(id='Alpha'
            flows=[dict(src=0, dst=1, rate='Ka'), dict(src=1, dst=0, rate='kd'), dict(src=1, dst=None, rate='k_b')],
            inter=[],
            perm=dict(species=[1, 0], params=[2, 0, 1], rules=[1, 2, 0], comps=[1, 0]))
-FIXED_MODELS = {'m1': MS1, 'm2': MS2}
+# a model with 19 published parameters (9 states, 2 compartment sizes, 8 constants): more than the built-in models have
+MS3 = dict(comps=[dict(id='zeta', size=1.3, sid='mu', init=0.8), dict(id='Alpha', size=2.0, sid='drug', init=0.2)],
+           gstates=[dict(id='g%d' % k, init=0.3 + 0.2 * k) for k in range(7)],
+           consts=[dict(id='c%d' % k, value=0.15 + 0.1 * k) for k in range(8)], derived=[],
+           flows=[dict(src=i, dst=i + 1 if i < 8 else None, rate='c%d' % (i % 8)) for i in range(9)] +
+                 [dict(src=4, dst=0, rate='c7')],
+           inter=[dict(id='obs', terms=[[2.0, 0], [0.5, 5], [1.5, 8]])],
+           perm=dict(species=[1, 0], params=list(reversed(range(16))), rules=[(3 * k) % 10 for k in range(10)],
+                     comps=[1, 0]))
+FIXED_MODELS = {'m1': MS1, 'm2': MS2, 'm3': MS3}
 
 
 def extra_cases(tier):
@@ -62,15 +71,27 @@ def extra_cases(tier):
         for L in range(1, max_len + 1):
             for seq in itertools.product(ALPHABET, repeat=L):
                 out.append(dict(model=model, ms=None, ops=list(seq), every=False, exhaustive=True))
+    # the model with more than 16 parameters: every sequence of up to two steps, and every sequence of three steps that
+    # fixes a parameter
+    for L in (1, 2):
+        for seq in itertools.product(ALPHABET, repeat=L):
+            out.append(dict(model='m3', ms=None, ops=list(seq), every=False, exhaustive=True))
+    for seq in itertools.product(ALPHABET, repeat=3):
+        if 'F' in seq and (tier != 'quick' or seq[0] == 'F'):
+            out.append(dict(model='m3', ms=None, ops=list(seq), every=False, exhaustive=True))
     return out
 
 
 @st.composite
 def _spec(draw):
-    model = draw(st.sampled_from(['gen', 'gen', 'pk', 'erl', 'm2']))
-    ms = sbmlgen.draw_model(draw, max_states=4) if model == 'gen' else None
+    model = draw(st.sampled_from(['gen', 'gen', 'pk', 'erl', 'm2', 'm3']))
+    big = model == 'gen' and gen.chance(draw, 0.08)
+    ms = sbmlgen.draw_model(draw, max_states=4, big=big) if model == 'gen' else None
     n = draw(st.integers(4, 25))
     ops = [ALPHABET[draw(st.integers(0, len(ALPHABET) - 1))] for _ in range(n)]
+    if big and not any(o in ('F', 'G') for o in ops):
+        # (a model with more than 16 parameters is of interest with some of them fixed)
+        ops[draw(st.integers(0, n - 1))] = 'F'
     return dict(model=model, ms=ms, ops=ops, every=True, exhaustive=False)
 
 
@@ -101,6 +122,10 @@ def classify(spec):
     if ops.count('RP') >= 2:
         labs.append('protocol_object_reused')
     labs.append('model:' + spec['model'])
+    if (spec.get('ms') is not None and len(sbmlgen.published_parameters(spec['ms'])) > 16) or spec['model'] == 'm3':
+        labs.append('model:more_than_16_parameters')
+        if 'F' in ops:
+            labs.append('model:more_than_16_parameters:some_fixed')
     return sorted(set(labs))
 
 
@@ -133,13 +158,18 @@ class Desc(object):
         else:
             self.ms = None     # erlotinib: no closed form
         if self.ms is not None:
-            self.comps = [(c['id'], '%s_amount' % c['sid']) for c in self.ms['comps']]
+            # dosable variables in the order of the states: one species per compartment, then the variables of 'global'
+            # that are governed by a rate rule (several of them share the component 'global')
+            self.comps = [(c['id'], '%s_amount' % c['sid']) for c in self.ms['comps']] + \
+                [('global', g['id']) for g in self.ms['gstates']]
+            self.n_compartments = len(self.ms['comps'])
             self.states = sbmlgen.state_qnames(self.ms)
             self.inter = sbmlgen.intermediate_qnames(self.ms)
             if self.kind == 'pk':
                 self.inter = ['central.drug_concentration']
         else:
             self.comps = [('central', 'drug_amount')]
+            self.n_compartments = 1
             self.states = ['central.drug_amount', 'global.tumour_volume']
             self.inter = ['central.drug_concentration']
 
@@ -324,10 +354,13 @@ def check(case):
         wrapped = net.fixed is not None
         n_fail = len(case.fails)
         with case.clause('operation'):
-            if op in ('A0', 'A1', 'A2'):
+            if op in ('A0', 'A1', 'A2', 'A3'):
                 if wrapped:
                     continue
-                ci = len(desc.comps) - 1 if op == 'A2' else 0
+                # A0 / A1: first compartment, direct / indirect; A2: the LAST dosable variable, A3: the first variable of
+                # 'global' (two variables of one component when there are several), both direct
+                ci = len(desc.comps) - 1 if op == 'A2' else \
+                    min(desc.n_compartments, len(desc.comps) - 1) if op == 'A3' else 0
                 direct = op != 'A1'
                 comp, avar = desc.comps[ci]
                 cur.set_administration(comp, amount_var=avar, direct=direct)
@@ -489,3 +522,7 @@ def check(case):
                 return
     if not s['every']:
         verify(len(s['ops']) - 1)
+
+
+RULE += (' Classes and clauses added in later rounds of the seeded-change protocol (DESIGN 9.4) are named in REQUIRED '
+         'and in seeded/HISTORY.json; the evidence counts every one of them under classes.')
